@@ -70,6 +70,19 @@ CHECKS.update({
          "DESIGN.md §3 C14"),
 })
 
+CHECKS.update({
+ "C04": ("exploration",
+         "bounded-exhaustive enumeration of (reply, request type, Accept list, Accept-Encoding) on the real Mux, decoded with the codec the response names; independent Accept admission model",
+         "Every reply (each field kind, maps/struct/any, all kinds, 64KiB, response_body selection, HttpBody with 4 content types x 4 sizes) under every Accept list of <= 2 ranges x q values (plus malformed and parameterised ranges), every request type and Accept-Encoding: the body, after undoing the declared Content-Encoding, must decode with the codec named by Content-Type to exactly the reply; the type must be admitted by Accept whenever a registered codec is, else equal the request type.",
+         "Which admitted type is chosen and q=0 exclusions are not demanded; protojson/proto are the trusted decoders.",
+         "DESIGN.md §3 C04"),
+ "C09": ("exploration",
+         "small-scope exhaustive enumeration of paths (all strings up to length 6/7 over a 9-symbol alphabet), query keys, header alphabets, frame/varint/JSON/WebSocket byte patterns x entry paths x mux options on the real Mux with a recover() oracle and a hang watchdog",
+         "Every input of the stated families is sent through Mux.ServeHTTP on each entry path (transcoding, gRPC, gRPC-web(-text), WebSocket upgrade) and under each option set (plain, interceptors, stats handler, both): no panic, bounded reads after end of input, an HTTP status in 100..599 or a hijacked and closed connection.",
+         "Small-scope hypothesis (lengths/alphabets as stated); a request that does not return within 120 s is reported as a hang.",
+         "DESIGN.md §3 C09"),
+})
+
 NOT_YET = {}
 
 def main():
